@@ -169,7 +169,7 @@ def run_pair(csv_text, txns, tag):
 
 def one_file(arg):
     idx, case = arg
-    assert merchant_utils._cached_engine is None, 'engine cache not fresh'
+    assert getattr(merchant_utils, '_cached_engine', None) is None, 'engine cache not fresh'
     txns = case['txns']
     res = run_pair(case['csv'], txns, f'f{idx}')
     if isinstance(res, dict):
@@ -218,7 +218,7 @@ def one_file(arg):
                         row.append('crash:' + type(e).__name__)
                 lx.append([p, row])
         out['re'], out['lit'], out['lx'] = req, lit, lx
-    assert merchant_utils._cached_engine is None, 'engine cache written during the case'
+    assert getattr(merchant_utils, '_cached_engine', None) is None, 'engine cache written during the case'
     return out
 
 
